@@ -12,6 +12,7 @@ package main
 
 import (
 	"fmt"
+	"go/constant"
 	"go/token"
 	"go/types"
 	"sort"
@@ -29,8 +30,14 @@ type c16Ctx struct {
 	// the context where it was created): free variables are bound there, which
 	// need not be the calling context (callbacks: withLock(func(){...})).
 	Closure c16V
-	depth   int
-	id      int
+	// Iter > 0: not a call context but the Iter-th copy of the unrolled loop Loop
+	// of function Fn (Parent is the context of the enclosing code).
+	Iter int
+	Loop *c16UL
+	// Once: the callee is the function passed to (*sync.Once).Do at this call.
+	Once  bool
+	depth int
+	id    int
 }
 
 // c16V is an SSA value in a context.
@@ -63,12 +70,8 @@ type c16C struct {
 // returnsOf lists the reachable return blocks of an inlined callee.
 func (g *c16G) returnsOf(cctx *c16Ctx) []*c16B {
 	var out []*c16B
-	for _, rb := range cctx.Fn.Blocks {
-		lb := g.last[c16bk{cctx, rb}]
-		if lb == nil || len(rb.Instrs) == 0 {
-			continue
-		}
-		if _, ok := rb.Instrs[len(rb.Instrs)-1].(*ssa.Return); ok {
+	for _, lb := range g.rets[cctx] {
+		if g.where[lb.Ns[len(lb.Ns)-1]] == lb { // still reachable
 			out = append(out, lb)
 		}
 	}
@@ -121,8 +124,13 @@ type c16G struct {
 	Entry      *c16B
 	Exits      []*c16B // blocks ending in a Return of the root function
 	Unfollowed []string
-	Unknown    []string // shapes a rule could not interpret (recorded by Unk)
-	Esc        string   // set by the rules: an object they reason about is handed to unmodelled code
+	Unknown    []string            // shapes a rule could not interpret (recorded by Unk)
+	Esc        string              // set by the rules: an object they reason about is handed to unmodelled code
+	rets       map[*c16Ctx][]*c16B // return blocks per function context
+	iters      map[*c16UL][]*c16Ctx
+	sink       *c16B
+	unf        []c16Unf
+	consts     map[string]*ssa.Const
 	first      map[c16bk]*c16B
 	last       map[c16bk]*c16B
 	inl        map[c16N]*c16Ctx // inlined call occurrence -> callee context
@@ -137,7 +145,7 @@ const c16MaxDepth = 5
 
 // c16Build builds the inlined graph of root.
 func c16Build(p *Prog, root *ssa.Function) *c16G {
-	g := &c16G{P: p, Root: root, first: map[c16bk]*c16B{}, last: map[c16bk]*c16B{}, inl: map[c16N]*c16Ctx{}, where: map[c16N]*c16B{}, reach: map[*c16B]map[*c16B]bool{}, valMemo: map[c16V]c16V{}, valBusy: map[c16V]bool{}}
+	g := &c16G{P: p, Root: root, first: map[c16bk]*c16B{}, last: map[c16bk]*c16B{}, inl: map[c16N]*c16Ctx{}, where: map[c16N]*c16B{}, reach: map[*c16B]map[*c16B]bool{}, valMemo: map[c16V]c16V{}, valBusy: map[c16V]bool{}, rets: map[*c16Ctx][]*c16B{}, iters: map[*c16UL][]*c16Ctx{}, consts: map[string]*ssa.Const{}}
 	if len(root.Blocks) == 0 {
 		undecided("anchor function %s has no body", FuncName(p, root))
 	}
@@ -149,6 +157,18 @@ func c16Build(p *Prog, root *ssa.Function) *c16G {
 	// through a temporary) has one feasible successor: prune and recompute
 	for round := 0; round < 3 && g.pruneConst(); round++ {
 		g.finalize()
+	}
+	for _, u := range g.unf {
+		if g.where[c16N{In: u.ci, Ctx: u.ctx}] != nil || g.where[c16N{In: u.ci, Ctx: u.ctx, Replay: true}] != nil {
+			g.Unfollowed = append(g.Unfollowed, u.msg)
+		}
+	}
+	if g.sink != nil {
+		for _, b := range g.Blocks {
+			if b == g.sink {
+				g.Unfollowed = append(g.Unfollowed, "a loop over a literal runs longer than it was unrolled")
+			}
+		}
 	}
 	sort.Strings(g.Unfollowed)
 	return g
@@ -197,7 +217,7 @@ func (g *c16G) finalize() {
 		for _, n := range b.Ns {
 			g.where[n] = b
 		}
-		if len(b.Ns) > 0 && b.Ctx == nil {
+		if len(b.Ns) > 0 && b.Ctx.fnCtx() == nil {
 			if _, ok := b.Ns[len(b.Ns)-1].In.(*ssa.Return); ok {
 				g.Exits = append(g.Exits, b)
 			}
@@ -311,16 +331,36 @@ func c16Link(a, b *c16B) {
 // inlinable returns the callee to splice in for a call occurrence, or nil.
 func (g *c16G) inlinable(ci ssa.CallInstruction, ctx *c16Ctx) (*ssa.Function, c16V) {
 	cc := ci.Common()
-	if cc.IsInvoke() {
-		return nil, c16V{}
-	}
 	if _, ok := cc.Value.(*ssa.Builtin); ok {
 		return nil, c16V{}
 	}
 	var closure c16V
-	callee := staticCallee(ci)
+	var callee *ssa.Function
+	if !cc.IsInvoke() && callIs(ci, "sync", "Once", "Do") && len(cc.Args) == 2 {
+		// once.Do(f): f's effects have happened when Do returns (now or earlier)
+		v := g.Res(c16V{cc.Args[1], ctx})
+		switch x := v.V.(type) {
+		case *ssa.Function:
+			return g.vetCallee(ci, ctx, origin(x), c16V{})
+		case *ssa.MakeClosure:
+			if f, ok := x.Fn.(*ssa.Function); ok {
+				return g.vetCallee(ci, ctx, origin(f), v)
+			}
+		}
+		g.unfollow(ci, ctx, "sync.Once.Do of an unknown function in "+c16CtxName(g, ctx))
+		return nil, c16V{}
+	}
+	if cc.IsInvoke() {
+		// an interface seam of this package with a single implementation is a static call
+		callee = g.soleImplementation(cc.Value.Type(), cc.Method)
+		if callee == nil {
+			return nil, c16V{}
+		}
+	} else {
+		callee = staticCallee(ci)
+	}
 	if callee != nil {
-		if _, ok := cc.Value.(*ssa.MakeClosure); ok {
+		if _, ok := cc.Value.(*ssa.MakeClosure); ok && !cc.IsInvoke() {
 			closure = c16V{cc.Value, ctx}
 		}
 	} else {
@@ -340,10 +380,15 @@ func (g *c16G) inlinable(ci ssa.CallInstruction, ctx *c16Ctx) (*ssa.Function, c1
 			}
 		}
 		if callee == nil {
-			g.Unfollowed = append(g.Unfollowed, "dynamic call in "+c16CtxName(g, ctx))
+			g.unfollow(ci, ctx, "dynamic call in "+c16CtxName(g, ctx))
 			return nil, c16V{}
 		}
 	}
+	return g.vetCallee(ci, ctx, callee, closure)
+}
+
+// vetCallee decides whether the resolved callee is spliced in.
+func (g *c16G) vetCallee(ci ssa.CallInstruction, ctx *c16Ctx, callee *ssa.Function, closure c16V) (*ssa.Function, c16V) {
 	if _, _, isIfaceBound := c16BoundIface(closure); isIfaceBound {
 		return nil, c16V{} // x.M of an interface value: a method call the rules model
 	}
@@ -367,19 +412,78 @@ func (g *c16G) inlinable(ci ssa.CallInstruction, ctx *c16Ctx) (*ssa.Function, c1
 	for c := ctx; c != nil; c = c.Parent {
 		d++
 		if c.Fn == callee {
-			g.Unfollowed = append(g.Unfollowed, "recursive call of "+callee.Name())
+			g.unfollow(ci, ctx, "recursive call of "+callee.Name())
 			return nil, c16V{}
 		}
 	}
 	if callee == g.Root {
-		g.Unfollowed = append(g.Unfollowed, "recursive call of "+callee.Name())
+		g.unfollow(ci, ctx, "recursive call of "+callee.Name())
 		return nil, c16V{}
 	}
 	if d >= c16MaxDepth {
-		g.Unfollowed = append(g.Unfollowed, "call of "+callee.Name()+" beyond the inlining depth")
+		g.unfollow(ci, ctx, "call of "+callee.Name()+" beyond the inlining depth")
 		return nil, c16V{}
 	}
 	return callee, closure
+}
+
+// soleImplementation: t is an interface type declared in the analysed package
+// and exactly one named type of the package implements it; returns that type's
+// method m.
+func (g *c16G) soleImplementation(t types.Type, m *types.Func) *ssa.Function {
+	named, ok := types.Unalias(t).(*types.Named)
+	if !ok || named.Obj().Pkg() == nil || named.Obj().Pkg() != g.Root.Pkg.Pkg {
+		return nil
+	}
+	iface, ok := named.Underlying().(*types.Interface)
+	if !ok {
+		return nil
+	}
+	var impl types.Type
+	n := 0
+	scope := g.Root.Pkg.Pkg.Scope()
+	for _, name := range scope.Names() {
+		tn, ok := scope.Lookup(name).(*types.TypeName)
+		if !ok || tn.IsAlias() {
+			continue
+		}
+		T := tn.Type()
+		if _, isIface := T.Underlying().(*types.Interface); isIface {
+			continue
+		}
+		switch {
+		case types.Implements(T, iface):
+			impl = T
+			n++
+		case types.Implements(types.NewPointer(T), iface):
+			impl = types.NewPointer(T)
+			n++
+		}
+	}
+	if n != 1 {
+		return nil
+	}
+	sel := g.P.SSA.MethodSets.MethodSet(impl).Lookup(m.Pkg(), m.Name())
+	if sel == nil {
+		return nil
+	}
+	fn := g.P.SSA.MethodValue(sel)
+	if fn == nil || len(fn.Blocks) == 0 {
+		return nil
+	}
+	return origin(fn)
+}
+
+// unfollow records a call that could not be followed; it only counts if the
+// call is still reachable once the graph is complete.
+func (g *c16G) unfollow(ci ssa.CallInstruction, ctx *c16Ctx, msg string) {
+	g.unf = append(g.unf, c16Unf{msg, ci, ctx})
+}
+
+type c16Unf struct {
+	msg string
+	ci  ssa.CallInstruction
+	ctx *c16Ctx
 }
 
 // c16BoundIface: v is a bound method value x.M where x is an interface value
@@ -449,6 +553,163 @@ func c16CtxName(g *c16G, ctx *c16Ctx) string {
 	return ctx.Fn.Name()
 }
 
+// c16UL is a counting loop over a small local literal (array/slice of values or
+// of function values) that is unrolled in the inlined view: one copy of the
+// loop body per index, so "a table of steps run in order" reads like the steps
+// written one after the other.
+type c16UL struct {
+	Header *ssa.BasicBlock
+	Phi    *ssa.Phi
+	Start  int64
+	Blocks map[*ssa.BasicBlock]bool
+	N      int // number of copies of the loop (the last one only evaluates the exit test)
+}
+
+const c16MaxUnroll = 8
+
+// c16Unrollable finds the loops of fn to unroll.
+func c16Unrollable(fn *ssa.Function, reach map[*ssa.BasicBlock]bool) []*c16UL {
+	isLiteral := func(v ssa.Value) (*ssa.Alloc, bool) {
+		switch x := v.(type) {
+		case *ssa.Alloc:
+			_, isArr := deref(x.Type()).Underlying().(*types.Array)
+			return x, isArr
+		case *ssa.Slice:
+			if al, ok := x.X.(*ssa.Alloc); ok && x.Low == nil && x.High == nil {
+				_, isArr := deref(al.Type()).Underlying().(*types.Array)
+				return al, isArr
+			}
+		case *ssa.UnOp:
+			if al, ok := x.X.(*ssa.Alloc); ok && x.Op == token.MUL {
+				_, isArr := deref(al.Type()).Underlying().(*types.Array)
+				return al, isArr
+			}
+		}
+		return nil, false
+	}
+	var out []*c16UL
+	for _, h := range fn.Blocks {
+		if !reach[h] {
+			continue
+		}
+		fromH := reachableFrom(h, nil)
+		inLoop := func(b *ssa.BasicBlock) bool { return fromH[b] && reachableFrom(b, nil)[h] }
+		for _, in := range h.Instrs {
+			phi, ok := in.(*ssa.Phi)
+			if !ok {
+				break
+			}
+			if bt, isB := phi.Type().Underlying().(*types.Basic); !isB || bt.Info()&types.IsInteger == 0 {
+				continue
+			}
+			lin := func(v ssa.Value) (int64, bool) { // v == phi + d
+				if v == ssa.Value(phi) {
+					return 0, true
+				}
+				if bo, ok := v.(*ssa.BinOp); ok && bo.Op == token.ADD && bo.X == ssa.Value(phi) {
+					if k, ok := c16IntConst(bo.Y); ok {
+						return k, true
+					}
+				}
+				return 0, false
+			}
+			start, startOK, good := int64(0), false, true
+			for i, e := range phi.Edges {
+				if inLoop(h.Preds[i]) {
+					if d, ok := lin(e); !ok || d != 1 {
+						good = false
+					}
+					continue
+				}
+				if k, ok := c16IntConst(e); ok && (!startOK || k == start) {
+					start, startOK = k, true
+				} else {
+					good = false
+				}
+			}
+			if !good || !startOK {
+				continue
+			}
+			ul := &c16UL{Header: h, Phi: phi, Start: start, Blocks: map[*ssa.BasicBlock]bool{}}
+			bound, usesLiteral, hasDefer := int64(-1), false, false
+			for _, b := range fn.Blocks {
+				if !reach[b] || !inLoop(b) {
+					continue
+				}
+				ul.Blocks[b] = true
+				for _, bi := range b.Instrs {
+					switch x := bi.(type) {
+					case *ssa.Defer:
+						hasDefer = true
+					case *ssa.Index:
+						if _, ok := isLiteral(x.X); ok {
+							if _, ok := lin(x.Index); ok {
+								usesLiteral = true
+							}
+						}
+					case *ssa.IndexAddr:
+						if _, ok := isLiteral(x.X); ok {
+							if _, ok := lin(x.Index); ok {
+								usesLiteral = true
+							}
+						}
+					case *ssa.If:
+						bo, ok := x.Cond.(*ssa.BinOp)
+						if !ok {
+							continue
+						}
+						for _, pair := range [][2]ssa.Value{{bo.X, bo.Y}, {bo.Y, bo.X}} {
+							if _, ok := lin(pair[0]); !ok {
+								continue
+							}
+							if k, ok := c16IntConst(pair[1]); ok {
+								bound = k
+							}
+							if call, ok := pair[1].(*ssa.Call); ok && builtinName(call) == "len" && len(call.Call.Args) == 1 {
+								if al, ok := isLiteral(call.Call.Args[0]); ok {
+									bound = deref(al.Type()).Underlying().(*types.Array).Len()
+								}
+							}
+						}
+					}
+				}
+			}
+			if !usesLiteral || hasDefer || bound < 0 || bound-start > c16MaxUnroll || bound-start < 0 {
+				continue
+			}
+			ul.N = int(bound-start) + 2
+			out = append(out, ul)
+		}
+	}
+	// no nesting / overlap
+	var keep []*c16UL
+	for i, a := range out {
+		ok := true
+		for j, b := range out {
+			if i == j {
+				continue
+			}
+			for blk := range a.Blocks {
+				if b.Blocks[blk] {
+					ok = false
+				}
+			}
+		}
+		if ok {
+			keep = append(keep, a)
+		}
+	}
+	return keep
+}
+
+// fnCtx strips loop-iteration contexts: the context of the enclosing function.
+func (c *c16Ctx) fnCtx() *c16Ctx {
+	for c != nil && c.Iter > 0 {
+		c = c.Parent
+	}
+	return c
+}
+
 func (g *c16G) build(fn *ssa.Function, ctx *c16Ctx) {
 	reach := reachableFrom(fn.Blocks[0], nil)
 	var defers []*ssa.Defer
@@ -457,40 +718,44 @@ func (g *c16G) build(fn *ssa.Function, ctx *c16Ctx) {
 			defers = append(defers, d)
 		}
 	})
-	splice := func(cur *c16B, n c16N, sb *ssa.BasicBlock, seg *int) *c16B {
-		callee, closure := g.inlinable(n.In.(ssa.CallInstruction), ctx)
+	loops := c16Unrollable(fn, reach)
+	inUL := map[*ssa.BasicBlock]*c16UL{}
+	iters := g.iters
+	for _, ul := range loops {
+		for b := range ul.Blocks {
+			inUL[b] = ul
+		}
+	}
+	splice := func(cur *c16B, n c16N, sb *ssa.BasicBlock, seg *int, bctx *c16Ctx) *c16B {
+		callee, closure := g.inlinable(n.In.(ssa.CallInstruction), bctx)
 		if callee == nil {
 			return cur
 		}
 		g.nctx++
-		cctx := &c16Ctx{Parent: ctx, Call: n.In.(ssa.CallInstruction), Fn: callee, Closure: closure, id: g.nctx}
+		cctx := &c16Ctx{Parent: bctx, Call: n.In.(ssa.CallInstruction), Fn: callee, Closure: closure, id: g.nctx}
+		cctx.Once = callIs(n.In.(ssa.CallInstruction), "sync", "Once", "Do")
 		g.inl[n] = cctx
 		g.build(callee, cctx)
 		*seg++
-		next := g.newB(sb, ctx, *seg)
+		next := g.newB(sb, bctx, *seg)
 		c16Link(cur, g.first[c16bk{cctx, callee.Blocks[0]}])
-		for _, rb := range callee.Blocks {
-			if lb := g.last[c16bk{cctx, rb}]; lb != nil && len(rb.Instrs) > 0 {
-				if _, ok := rb.Instrs[len(rb.Instrs)-1].(*ssa.Return); ok {
-					c16Link(lb, next)
-				}
-			}
+		for _, lb := range g.rets[cctx] {
+			c16Link(lb, next)
 		}
 		return next
 	}
-	for _, sb := range fn.Blocks {
-		if !reach[sb] {
-			continue
-		}
+	buildBlock := func(sb *ssa.BasicBlock, bctx *c16Ctx) {
 		seg := 0
-		cur := g.newB(sb, ctx, 0)
-		g.first[c16bk{ctx, sb}] = cur
+		cur := g.newB(sb, bctx, 0)
+		g.first[c16bk{bctx, sb}] = cur
 		for _, in := range sb.Instrs {
-			n := c16N{In: in, Ctx: ctx}
+			n := c16N{In: in, Ctx: bctx}
 			cur.Ns = append(cur.Ns, n)
 			switch x := in.(type) {
 			case *ssa.Call:
-				cur = splice(cur, n, sb, &seg)
+				cur = splice(cur, n, sb, &seg, bctx)
+			case *ssa.Return:
+				g.rets[ctx] = append(g.rets[ctx], cur)
 			case *ssa.RunDefers:
 				for i := len(defers) - 1; i >= 0; i-- {
 					d := defers[i]
@@ -498,13 +763,13 @@ func (g *c16G) build(fn *ssa.Function, ctx *c16Ctx) {
 						continue // cannot have been registered on the way here
 					}
 					seg++
-					body := g.newB(sb, ctx, seg)
+					body := g.newB(sb, bctx, seg)
 					c16Link(cur, body)
-					rn := c16N{In: d, Ctx: ctx, Replay: true}
+					rn := c16N{In: d, Ctx: bctx, Replay: true}
 					body.Ns = append(body.Ns, rn)
-					end := splice(body, rn, sb, &seg)
+					end := splice(body, rn, sb, &seg, bctx)
 					seg++
-					next := g.newB(sb, ctx, seg)
+					next := g.newB(sb, bctx, seg)
 					c16Link(end, next)
 					if !instrDominates(d, x) {
 						c16Link(cur, next) // may not have been registered
@@ -513,17 +778,54 @@ func (g *c16G) build(fn *ssa.Function, ctx *c16Ctx) {
 				}
 			}
 		}
-		g.last[c16bk{ctx, sb}] = cur
+		g.last[c16bk{bctx, sb}] = cur
 	}
 	for _, sb := range fn.Blocks {
-		if !reach[sb] {
-			continue
+		if reach[sb] && inUL[sb] == nil {
+			buildBlock(sb, ctx)
 		}
+	}
+	for _, ul := range loops {
+		for j := 0; j < ul.N; j++ {
+			g.nctx++
+			ictx := &c16Ctx{Parent: ctx, Fn: fn, Iter: j + 1, Loop: ul, id: g.nctx}
+			iters[ul] = append(iters[ul], ictx)
+			for _, sb := range fn.Blocks {
+				if reach[sb] && ul.Blocks[sb] {
+					buildBlock(sb, ictx)
+				}
+			}
+		}
+	}
+	// the context a successor block lives in, seen from a block in bctx
+	target := func(bctx *c16Ctx, s *ssa.BasicBlock) *c16B {
+		ul := inUL[s]
+		switch {
+		case ul == nil:
+			return g.first[c16bk{ctx, s}]
+		case bctx != nil && bctx.Loop == ul && bctx.Iter > 0:
+			if s != ul.Header {
+				return g.first[c16bk{bctx, s}]
+			}
+			if bctx.Iter < len(iters[ul]) {
+				return g.first[c16bk{iters[ul][bctx.Iter], s}] // next iteration
+			}
+			if g.sink == nil {
+				g.sink = g.newB(s, ctx, -1)
+			}
+			return g.sink // more iterations than unrolled: must turn out infeasible
+		default:
+			return g.first[c16bk{iters[ul][0], s}] // entering the loop
+		}
+	}
+	linkBlock := func(sb *ssa.BasicBlock, bctx *c16Ctx) {
+		from := g.last[c16bk{bctx, sb}]
 		// a branch on a value that is a constant in this context (a bool argument of
-		// an inlined helper) has only one feasible successor
+		// an inlined helper, a test on the index of an unrolled loop) has only one
+		// feasible successor
 		if n := len(sb.Instrs); n > 0 && len(sb.Succs) == 2 {
 			if ifi, ok := sb.Instrs[n-1].(*ssa.If); ok {
-				cv, br := g.Res(c16V{ifi.Cond, ctx}), true
+				cv, br := g.Res(c16V{ifi.Cond, bctx}), true
 				for {
 					if u, ok := cv.V.(*ssa.UnOp); ok && u.Op == token.NOT {
 						cv, br = g.Res(c16V{u.X, cv.Ctx}), !br
@@ -536,13 +838,27 @@ func (g *c16G) build(fn *ssa.Function, ctx *c16Ctx) {
 					if (k.Value.String() == "true") == br {
 						taken = 0
 					}
-					c16Link(g.last[c16bk{ctx, sb}], g.first[c16bk{ctx, sb.Succs[taken]}])
-					continue
+					c16Link(from, target(bctx, sb.Succs[taken]))
+					return
 				}
 			}
 		}
 		for _, s := range sb.Succs {
-			c16Link(g.last[c16bk{ctx, sb}], g.first[c16bk{ctx, s}])
+			c16Link(from, target(bctx, s))
+		}
+	}
+	for _, sb := range fn.Blocks {
+		if reach[sb] && inUL[sb] == nil {
+			linkBlock(sb, ctx)
+		}
+	}
+	for _, ul := range loops {
+		for _, ictx := range iters[ul] {
+			for _, sb := range fn.Blocks {
+				if reach[sb] && ul.Blocks[sb] {
+					linkBlock(sb, ictx)
+				}
+			}
 		}
 	}
 }
@@ -770,18 +1086,29 @@ func (g *c16G) expand(set []c16C, depth int) [][]c16C {
 					other = bo.X
 				}
 				cctx, idx, ok := g.callOf(g.Res(c16V{opnd, v.Ctx}))
-				if !ok || !isNilConst(g.Res(c16V{other, v.Ctx}).V) {
+				otherK, otherIsConst := g.Res(c16V{other, v.Ctx}).V.(*ssa.Const)
+				if !ok || !otherIsConst {
 					continue
 				}
-				wantNil := (bo.Op == token.EQL) == br
+				wantEq := (bo.Op == token.EQL) == br
 				var out [][]c16C
 				for k, rb := range g.returnsOf(cctx) {
 					ret := rb.Ns[len(rb.Ns)-1].In.(*ssa.Return)
 					dc := g.DomConds(rb)
 					rv := g.Res(c16V{ret.Results[idx], cctx})
-					isNil := isNilConst(rv.V)
-					nonNil := !isNil && g.FactsAbout(dc, []c16V{rv}).NonNil
-					if (wantNil && nonNil) || (!wantNil && isNil) {
+					// is "rv == other" decided for this return? (nil, flags, small enums)
+					decided, equal := false, false
+					if rk, isK := rv.V.(*ssa.Const); isK {
+						switch {
+						case rk.Value == nil || otherK.Value == nil:
+							decided, equal = true, rk.Value == nil && otherK.Value == nil
+						case rk.Value.Kind() == otherK.Value.Kind():
+							decided, equal = true, constant.Compare(rk.Value, token.EQL, otherK.Value)
+						}
+					} else if otherK.IsNil() && g.FactsAbout(dc, []c16V{rv}).NonNil {
+						decided, equal = true, false
+					}
+					if decided && equal != wantEq {
 						continue // this return cannot take this branch
 					}
 					extra := append(dc, c16C{V: c16V{nil, cctx}, Ret: k + 1}, c16C{V: v, Branch: br, Ret: -1})
@@ -800,10 +1127,11 @@ func (g *c16G) expand(set []c16C, depth int) [][]c16C {
 		bb := g.first[c16bk{v.Ctx, phi.Block()}]
 		var out [][]c16C
 		for k, e := range phi.Edges {
-			pb := g.last[c16bk{v.Ctx, phi.Block().Preds[k]}]
+			pb, ectx := g.phiPred(v.Ctx, phi, k)
 			if pb == nil || bb == nil {
 				continue
 			}
+
 			extra := g.DomConds(pb) // held when the selected predecessor ran
 			if ec, ok := g.EdgeCond(pb, bb); ok {
 				extra = append(extra, ec)
@@ -813,7 +1141,7 @@ func (g *c16G) expand(set []c16C, depth int) [][]c16C {
 					continue
 				}
 			} else {
-				extra = append(extra, c16C{V: g.Res(c16V{e, v.Ctx}), Branch: br})
+				extra = append(extra, c16C{V: g.Res(c16V{e, ectx}), Branch: br})
 			}
 			out = append(out, splice(extra)...)
 		}
@@ -851,7 +1179,78 @@ func (g *c16G) EdgeAlts(from, to *c16B) [][]c16C {
 // of single-assignment cells to the stored value.
 func (g *c16G) Res(v c16V) c16V {
 	for i := 0; i < 64; i++ {
+		// a value seen from a copy of an unrolled loop but defined outside the loop
+		// belongs to the enclosing context
+		for v.Ctx != nil && v.Ctx.Iter > 0 {
+			in, isInstr := v.V.(ssa.Instruction)
+			if isInstr && in.Block() != nil && in.Parent() == v.Ctx.Fn && v.Ctx.Loop.Blocks[in.Block()] {
+				break
+			}
+			v.Ctx = v.Ctx.Parent
+		}
 		switch x := v.V.(type) {
+		case *ssa.Phi:
+			// the index of an unrolled loop is a constant in each copy
+			if v.Ctx != nil && v.Ctx.Iter > 0 && x == v.Ctx.Loop.Phi {
+				return c16V{g.intConst(v.Ctx.Loop.Start+int64(v.Ctx.Iter-1), x.Type()), nil}
+			}
+			return v
+		case *ssa.BinOp:
+			// constant folding (indices and tests of unrolled loops)
+			xv, yv := g.Res(c16V{x.X, v.Ctx}), g.Res(c16V{x.Y, v.Ctx})
+			xk, xok := c16IntConst(xv.V)
+			yk, yok := c16IntConst(yv.V)
+			if !xok || !yok {
+				return v
+			}
+			switch x.Op {
+			case token.ADD:
+				return c16V{g.intConst(xk+yk, x.Type()), nil}
+			case token.SUB:
+				return c16V{g.intConst(xk-yk, x.Type()), nil}
+			case token.LSS:
+				return c16V{g.boolConst(xk < yk), nil}
+			case token.LEQ:
+				return c16V{g.boolConst(xk <= yk), nil}
+			case token.GTR:
+				return c16V{g.boolConst(xk > yk), nil}
+			case token.GEQ:
+				return c16V{g.boolConst(xk >= yk), nil}
+			case token.EQL:
+				return c16V{g.boolConst(xk == yk), nil}
+			case token.NEQ:
+				return c16V{g.boolConst(xk != yk), nil}
+			}
+			return v
+		case *ssa.Call:
+			// len of a local literal array / slice literal is a constant
+			if builtinName(x) == "len" && len(x.Call.Args) == 1 {
+				a := g.Res(c16V{x.Call.Args[0], v.Ctx})
+				var al *ssa.Alloc
+				switch y := a.V.(type) {
+				case *ssa.Slice:
+					if y.Low == nil && y.High == nil {
+						al, _ = y.X.(*ssa.Alloc)
+					}
+				case *ssa.UnOp:
+					if y.Op == token.MUL {
+						al, _ = y.X.(*ssa.Alloc)
+					}
+				}
+				if al != nil {
+					if arr, isArr := deref(al.Type()).Underlying().(*types.Array); isArr {
+						return c16V{g.intConst(arr.Len(), x.Type()), nil}
+					}
+				}
+			}
+			return v
+		case *ssa.Index:
+			// element of a local literal array at a constant index
+			if e, ok := g.literalElem(c16V{x.X, v.Ctx}, c16V{x.Index, v.Ctx}); ok {
+				v = e
+				continue
+			}
+			return v
 		case *ssa.Convert:
 			v.V = x.X
 		case *ssa.ChangeType:
@@ -869,6 +1268,9 @@ func (g *c16G) Res(v c16V) c16V {
 				}
 			}
 			args := v.Ctx.Call.Common().Args
+			if cc := v.Ctx.Call.Common(); cc.IsInvoke() {
+				args = append([]ssa.Value{cc.Value}, cc.Args...) // followed interface seam
+			}
 			if idx < 0 || idx >= len(args) {
 				return v
 			}
@@ -893,6 +1295,13 @@ func (g *c16G) Res(v c16V) c16V {
 			v = c16V{mc.Bindings[idx], v.Ctx.Closure.Ctx}
 		case *ssa.UnOp:
 			if x.Op != token.MUL {
+				return v
+			}
+			if ia, ok := x.X.(*ssa.IndexAddr); ok {
+				if e, ok := g.literalElem(c16V{ia.X, v.Ctx}, c16V{ia.Index, v.Ctx}); ok {
+					v = e
+					continue
+				}
 				return v
 			}
 			cell := g.Res(c16V{x.X, v.Ctx})
@@ -951,6 +1360,106 @@ func (g *c16G) cellWrittenInClosures(al *ssa.Alloc) bool {
 		}
 	}
 	return false
+}
+
+func (g *c16G) intConst(k int64, t types.Type) *ssa.Const {
+	key := fmt.Sprintf("%s:%d", t.String(), k)
+	if c := g.consts[key]; c != nil {
+		return c
+	}
+	c := ssa.NewConst(constant.MakeInt64(k), t)
+	g.consts[key] = c
+	return c
+}
+
+func (g *c16G) boolConst(b bool) *ssa.Const {
+	key := fmt.Sprintf("bool:%v", b)
+	if c := g.consts[key]; c != nil {
+		return c
+	}
+	c := ssa.NewConst(constant.MakeBool(b), types.Typ[types.Bool])
+	g.consts[key] = c
+	return c
+}
+
+// literalElem: arr denotes a local literal array (its address, its value or a
+// slice of it) and idx is a constant: the value stored in that slot (the slot
+// must be written exactly once, by the literal).
+func (g *c16G) literalElem(arr, idx c16V) (c16V, bool) {
+	k, ok := c16IntConst(g.Res(idx).V)
+	if !ok {
+		return c16V{}, false
+	}
+	a := g.Res(arr)
+	var al *ssa.Alloc
+	switch x := a.V.(type) {
+	case *ssa.Alloc:
+		al = x
+	case *ssa.Slice:
+		if x.Low == nil && x.High == nil {
+			al, _ = x.X.(*ssa.Alloc)
+		}
+	case *ssa.UnOp:
+		if x.Op == token.MUL {
+			al, _ = x.X.(*ssa.Alloc)
+		}
+	}
+	if al == nil {
+		return c16V{}, false
+	}
+	if _, isArr := deref(al.Type()).Underlying().(*types.Array); !isArr {
+		return c16V{}, false
+	}
+	var val ssa.Value
+	n := 0
+	for _, rr := range refs(al) {
+		switch x := rr.(type) {
+		case *ssa.Slice, *ssa.UnOp, *ssa.DebugRef:
+		case *ssa.IndexAddr:
+			j, isK := c16IntConst(x.Index)
+			for _, r2 := range refs(x) {
+				if st, isStore := r2.(*ssa.Store); isStore && st.Addr == ssa.Value(x) {
+					if !isK {
+						return c16V{}, false // written through a variable index
+					}
+					if j == k {
+						val = st.Val
+						n++
+					}
+				}
+			}
+		default:
+			return c16V{}, false
+		}
+	}
+	if n != 1 {
+		return c16V{}, false
+	}
+	if mi, ok := val.(*ssa.MakeInterface); ok {
+		val = mi.X
+	}
+	return c16V{val, a.Ctx}, true
+}
+
+// phiPred: the block an edge of phi comes from and the context its value lives
+// in, seen from context ctx (the header of an unrolled loop gets its values
+// from the enclosing code in the first copy and from the previous copy later).
+func (g *c16G) phiPred(ctx *c16Ctx, phi *ssa.Phi, i int) (*c16B, *c16Ctx) {
+	pred := phi.Block().Preds[i]
+	if ctx != nil && ctx.Iter > 0 && phi.Block() == ctx.Loop.Header {
+		if ctx.Loop.Blocks[pred] {
+			if ctx.Iter < 2 {
+				return nil, nil
+			}
+			prev := g.iters[ctx.Loop][ctx.Iter-2]
+			return g.last[c16bk{prev, pred}], prev
+		}
+		if ctx.Iter != 1 {
+			return nil, nil
+		}
+		return g.last[c16bk{ctx.Parent, pred}], ctx.Parent
+	}
+	return g.last[c16bk{ctx, pred}], ctx
 }
 
 // Val is Res followed, for merged values (phis, loads of local cells such as
@@ -1029,7 +1538,7 @@ func (g *c16G) Leaves(v c16V) []c16Leaf {
 			seen[v] = true
 			bb := g.first[c16bk{v.Ctx, x.Block()}]
 			for i, e := range x.Edges {
-				pb := g.last[c16bk{v.Ctx, x.Block().Preds[i]}]
+				pb, ectx := g.phiPred(v.Ctx, x, i)
 				if pb == nil || bb == nil {
 					continue // unreachable predecessor
 				}
@@ -1037,7 +1546,7 @@ func (g *c16G) Leaves(v c16V) []c16Leaf {
 				if c, ok := g.EdgeCond(pb, bb); ok {
 					extra = append(extra, c)
 				}
-				walk(c16V{e, v.Ctx}, cp(extra), via2, depth+1)
+				walk(c16V{e, ectx}, cp(extra), via2, depth+1)
 			}
 			seen[v] = false
 			return
@@ -1092,27 +1601,17 @@ func (g *c16G) Leaves(v c16V) []c16Leaf {
 }
 
 func (g *c16G) walkReturns(cctx *c16Ctx, idx int, f func(rv c16V, extra []c16C)) {
-	for _, rb := range cctx.Fn.Blocks {
-		lb := g.last[c16bk{cctx, rb}]
-		if lb == nil || len(rb.Instrs) == 0 {
+	rets := g.returnsOf(cctx)
+	for k, lb := range rets {
+		ret := lb.Ns[len(lb.Ns)-1].In.(*ssa.Return)
+		if idx >= len(ret.Results) {
 			continue
-		}
-		ret, ok := rb.Instrs[len(rb.Instrs)-1].(*ssa.Return)
-		if !ok || idx >= len(ret.Results) {
-			continue
-		}
-		multi := len(g.returnsOf(cctx)) > 1
-		k := 0
-		for i, x := range g.returnsOf(cctx) {
-			if x == lb {
-				k = i
-			}
 		}
 		for _, set := range g.CondSets(lb, 3) {
-			if multi {
+			if len(rets) > 1 {
 				set = append(append([]c16C(nil), set...), c16C{V: c16V{nil, cctx}, Ret: k + 1})
 			}
-			f(c16V{ret.Results[idx], cctx}, set)
+			f(c16V{ret.Results[idx], lb.Ctx}, set)
 		}
 	}
 }
@@ -1553,19 +2052,20 @@ func c16Track(s uint64) (id, k int, ok bool) {
 
 // retEdge: the edge leaves an inlined multi-return callee through its k-th return.
 func (g *c16G) retEdge(from, to *c16B) (id, k int, ok bool) {
-	if from.Ctx == nil || from.Ctx == to.Ctx || from.Ctx.Parent != to.Ctx || len(from.Ns) == 0 {
+	fc := from.Ctx.fnCtx()
+	if fc == nil || fc == to.Ctx.fnCtx() || fc.Parent != to.Ctx || len(from.Ns) == 0 {
 		return 0, 0, false
 	}
 	if _, isRet := from.Ns[len(from.Ns)-1].In.(*ssa.Return); !isRet {
 		return 0, 0, false
 	}
-	rs := g.returnsOf(from.Ctx)
+	rs := g.returnsOf(fc)
 	if len(rs) < 2 {
 		return 0, 0, false
 	}
 	for i, rb := range rs {
 		if rb == from {
-			return from.Ctx.id, i, true
+			return fc.id, i, true
 		}
 	}
 	return 0, 0, false
@@ -2003,6 +2503,39 @@ func (g *c16G) IsCount(lf c16Leaf, target c16V) bool {
 		}
 	}
 	return false
+}
+
+// InOnce: the occurrence is executed inside a function run by sync.Once.Do.
+func (n c16N) InOnce() bool {
+	for c := n.Ctx; c != nil; c = c.Parent {
+		if c.Once {
+			return true
+		}
+	}
+	return false
+}
+
+// AtomicBoolOp: v is a call of a method of sync/atomic.Bool on field f;
+// returns the method name ("Load", "Store", "Swap", "CompareAndSwap") and the
+// call.
+func (g *c16G) AtomicBoolOp(v c16V, f FieldID) (string, *ssa.Call) {
+	call, ok := g.Res(v).V.(*ssa.Call)
+	if !ok || call.Call.IsInvoke() || len(call.Call.Args) == 0 {
+		return "", nil
+	}
+	obj := calleeObj(call)
+	if obj == nil || obj.Pkg() == nil || obj.Pkg().Path() != "sync/atomic" {
+		return "", nil
+	}
+	sig := obj.Type().(*types.Signature)
+	if sig.Recv() == nil || typeBaseName(sig.Recv().Type()) != "Bool" {
+		return "", nil
+	}
+	fa, ok := g.Res(c16V{call.Call.Args[0], g.Res(v).Ctx}).V.(*ssa.FieldAddr)
+	if !ok || fieldIDOfAddr(fa) != f {
+		return "", nil
+	}
+	return obj.Name(), call
 }
 
 func c16Desc(g *c16G) string {
